@@ -12,7 +12,7 @@ def run(rep):
     compilerp.frame_obligations(rep, modules=['yp_generator', 'yp_prolog_visitor', 'compiler'])
     q = rep.tier == 'quick'
     if os.path.exists(os.path.join(fw.VERIF, 'standin', 's_c18.py')):
-        fw.standin(rep, 's_c18.py', ['run', rep.seed, 200 if q else 3000],
+        fw.standin(rep, 's_c18.py', ['run', rep.seed, 600 if q else 4000],
                    'same program compiled under PYTHONHASHSEED 0/1/2/3/random, twice in process, after unrelated compilations',
                    'F1-F3 programs and clauses with many fresh variables')
     rep.assumptions += [A['A-EXT-ANTLR'], A['A-PY-DICTORDER'], 'str methods, sorted, dict.fromkeys, list/tuple/dict iteration, itertools.chain, '
